@@ -77,23 +77,34 @@ CONFIGS = [
      "tok": words("x", ",x", ",", "!", "x,", "x!", "xx")},
 ]
 
+def full_tok(conf):
+    """the configuration's tokens, every byte of the grammar's alphabet as a single-byte token (a canonical tokenizer
+    must be able to spell forced text: greedy_tokenize silently skips a byte no token starts with), two specials, EOS last"""
+    tok = [list(w) for w in conf["tok"]]
+    for b in sorted({b for w in conf["tok"] for b in w}):
+        if [b] not in tok:
+            tok.append([b])
+    return tok + [[255, 60, 97, 62], [255, 60, 124, 101, 110, 100, 124, 62]]
+
+
 SW_OK = {"clearOnRollback": 1, "keyRow": 1, "keyPending": 1, "resetLastForce": 1, "vendMax": 0}
 # design slips the model must reject: (switch, value, configuration it shows on)
 NEGATIVE = [("clearOnRollback", 0, "ab_digits_bang"), ("keyRow", 0, "list_bang"),
             ("vendMax", 1, "brackets"), ("resetLastForce", 0, "forced_two")]
 
 
-def conf_json(conf, depth, cap, record, sw=None, fuel=8):
-    tok = conf["tok"] + [[255, 60, 97, 62], [255, 60, 124, 101, 110, 100, 124, 62]]
+def conf_json(conf, depth, cap, record, sw=None, fuel=8, canon=0):
+    tok = full_tok(conf)
     text = [i for i, w in enumerate(tok) if w and w[0] != 255]
     order = sorted(text, key=lambda i: (bytes(tok[i]), i))
     alpha = sorted({b for w in conf["tok"] for b in w} | {122})
     return {"lex": conf["lex"], "tok": tok, "eos": len(tok) - 1, "order": order, "alpha": alpha, "depth": depth, "cap": cap,
+            "canon": canon, "maxlen": max(len(w) for w in tok),
             "record": record, "fuel": fuel, "sw": dict(SW_OK, **(sw or {}))}
 
 
-def run_model(conf, depth, cap, record, wd, sw=None, tag="", workers=4, timeout=3600):
-    c = conf_json(conf, depth, cap, record, sw)
+def run_model(conf, depth, cap, record, wd, sw=None, tag="", workers=4, timeout=3600, canon=0):
+    c = conf_json(conf, depth, cap, record, sw, canon=canon)
     cp = os.path.join(wd, f"impl-{conf['name']}{tag}.ndjson")
     open(cp, "w").write(json.dumps(c) + "\n")
     return c, cp
@@ -103,25 +114,30 @@ def u1(res, tier, wd=None):
     """exhaustive model checking of the positive configurations + the negative ones (must be rejected)"""
     wd = wd or core.workdir(f"implmc-u1-{tier}")
     q = tier == "quick"
-    depth = 5 if q else 7
+    depth = 4 if q else 6
+    ndepth = 5 if q else 6
     by = {c["name"]: c for c in CONFIGS}
 
-    def pos(conf):
-        c, cp = run_model(conf, depth, 3, 0, wd)
+    def pos(t):
+        conf, canon = t
+        c, cp = run_model(conf, depth, 3, 0, wd, canon=canon, tag=f"-c{canon}")
         r = core.tlc_check("MC_EngineImpl", workers=2 if q else 4, timeout=3600, extra_env={"CONFIG": cp},
-                           tag=f"impl-u1-{conf['name']}")
+                           tag=f"impl-u1-{conf['name']}-{canon}")
         if not r["ok"]:
             raise core.ToolError(f"MC_EngineImpl failed on {conf['name']}:\n" + r.get("tail", ""))
-        return conf["name"], r
+        return conf["name"] + (":canonical" if canon else ""), r
 
     def neg(t):
         sw, val, name = t
-        c, cp = run_model(by[name], depth, 3, 0, wd, sw={sw: val}, tag=f"-neg-{sw}")
+        c, cp = run_model(by[name], ndepth, 2, 0, wd, sw={sw: val}, tag=f"-neg-{sw}")
         r = core.tlc_check("MC_EngineImpl", workers=2, timeout=3600, extra_env={"CONFIG": cp}, tag=f"impl-neg-{sw}")
         viol = "is violated" in r["out"]
         return sw, name, viol, r
 
-    out_pos = core.parallel(pos, CONFIGS, workers=5)
+    # every configuration with a non-canonical tokenizer; with a canonical one (forcing, fast-forward tokens, token healing,
+    # narrowed masks) half of them per run at the quick tier
+    jobs = [(c, 0) for c in CONFIGS] + [(c, 1) for i, c in enumerate(CONFIGS) if not q or i % 2 == 0]
+    out_pos = core.parallel(pos, jobs, workers=8)
     out_neg = core.parallel(neg, NEGATIVE, workers=4)
     for name, r in out_pos:
         res.add_tlc(r)
@@ -140,30 +156,46 @@ def u2(prop, tier, seed, res, depth=None):
     q = tier == "quick"
     depth = depth or (3 if q else 5)
     wd = core.workdir(f"{prop}-implu2-{tier}")
-    def gen(conf):
-        c, cp = run_model(conf, depth, 2, 1, wd, tag="-gen")
-        r = core.tlc_generate("MC_EngineImpl", workers=2, timeout=3600, extra_env={"CONFIG": cp}, tag=f"impl-u2-{conf['name']}")
-        return conf, c, r
+    def gen(t):
+        conf, canon = t
+        c, cp = run_model(conf, depth, 2, 1, wd, tag=f"-gen{canon}", canon=canon)
+        r = core.tlc_generate("MC_EngineImpl", workers=2, timeout=3600, extra_env={"CONFIG": cp}, tag=f"impl-u2-{conf['name']}-{canon}")
+        return conf, canon, c, r
 
     eps = []
-    per = 160 if q else 4000
-    for conf, c, r in core.parallel(gen, CONFIGS, workers=7):
+    per = 90 if q else 2500
+    for conf, canon, c, r in core.parallel(gen, [(c, k) for c in CONFIGS for k in (0, 1)], workers=8):
         res.add_tlc(r)
-        voc = {"kind": "list", "words": c["tok"], "eos": c["eos"], "canonical": 0}
+        voc = {"kind": "list", "words": c["tok"], "eos": c["eos"], "canonical": canon}
         gram = {"kind": "lark", "text": lexgen.lark_text(conf["lex"])}
         scripts = r["items"]
         res.cov.setdefault("u2_behaviours_enumerated", 0)
         res.cov["u2_behaviours_enumerated"] += len(scripts)
         if len(scripts) > per:
             import random
-            scripts = random.Random(f"{seed}-{conf['name']}").sample(scripts, per)
+            scripts = random.Random(f"{seed}-{conf['name']}-{canon}").sample(scripts, per)
         for k, script in enumerate(scripts):
-            eps.append({"gid": f"implu2:{conf['name']}:{k}", "mode": "U2", "seed": k, "steps": 0, "gram": gram,
+            eps.append({"gid": f"implu2:{conf['name']}:c{canon}:{k}", "mode": "U2", "seed": k, "steps": 0, "gram": gram,
                         "cfgs": [{"vocab": voc, "vid": 0, "slices": []}], "w": {}, "log_vocab": 1,
                         "init_extra": {"lex": conf["lex"]}, "script": [list(x) for x in script]})
     res.cov.setdefault("u2_behaviours_generated_by_tlc", 0)
     res.cov["u2_behaviours_generated_by_tlc"] += len(eps)
     if eps:
         res.sample({"tlc_generated_script_EngineImpl": eps[len(eps) // 2]["script"]})
-    return rel.drive_and_validate(f"{prop}-implu2x", tier, seed, {"episodes": eps}, res, nshards=12 if q else 16,
-                                  module="Trace_Lex", timeout=7200)
+    rejects = rel.drive_and_validate(f"{prop}-implu2x", tier, seed, {"episodes": eps}, res, nshards=12 if q else 16,
+                                     module="Trace_Lex", timeout=7200, also=("Trace_Impl",))
+    return split_discrepancies(rejects, res)
+
+
+def split_discrepancies(rejects, res):
+    """a recorded result that differs from the IMPLEMENTATION-SHAPED model (Trace_Impl) while the reference semantics
+    (Trace_Lex) accepts it says that EngineImpl.tla no longer describes the code (e.g. a different, still correct,
+    token-healing rule) - not that a listed property is broken: reported as DISCREPANCY, never as VIOLATION"""
+    keep = []
+    for rj in rejects:
+        if rj.get("spec") == "Trace_Impl":
+            res.cov.setdefault("model_discrepancies_EngineImpl", []).append({"replay": rj["replay"], "event": rj["event"][:200]})
+            core.log(f"DISCREPANCY spec=EngineImpl replay={rj['replay']}")
+        else:
+            keep.append(rj)
+    return keep
